@@ -20,7 +20,8 @@ class C02(PropBase):
     rule = ('naturally typed sids over the per-key value sets of every type (concrete, "*", ">", aliases; colliding key sets '
             '*__file / *__movie_file / *__cache_file); each rebuilt from uri, shuffled fields, query, eval(repr), copy; '
             'non-trivial = typed; distinct by (sid, rebuild kind); plus histories in one process on strings that several templates accept: '
-            'the plain string, then copy() / == of the same string forced to each accepting type, then the plain string again')
+            'the plain string, then copy() / == of the same string forced to each accepting type, then the plain string again; '
+            'and histories where a caller first assigns into the dictionary returned by .fields and the rebuilds are then repeated')
     def cases(self, rng, ctx, tier):
         v = gen.vocab_from_ctx(ctx)
         n = 120 if tier == 'quick' else 2500
@@ -73,6 +74,13 @@ class C02(PropBase):
             more.append(Case('copy', [['s', uri]], 'copy', meta))
             more.append(Case('eval_repr', [['s', uri]], 'repr', meta))
             more.append(Case('eq', [['s', uri], ['f', f2]], 'eq', meta))
+            if rng.random() < 0.15 and len(fields) > 1:
+                # the same rebuilds after a caller changed the dictionary that .fields handed out (one process): the Sid, and every
+                # later Sid made from the same string or uri, still has the string / type / fields it had
+                k = rng.choice([a for a, _ in fields] + ['foo'])
+                more.append(Case('seq', [['fields_mutate', [['s', uri], k, rng.choice(['zzz', '*', 'rig'])]],
+                                         ['sid', [['s', uri]]], ['sid', [['s', string]]], ['copy', [['s', uri]]], ['sid', [['f', fields]]]] +
+                                 ([] if any(ch in string for ch in "'\\\n\r") else [['eval_repr', [['s', uri]]]]), 'after_mutation', meta))
         return more
     def oracle(self, case, impl, ctx):
         if case.op == 'obs':
@@ -86,6 +94,21 @@ class C02(PropBase):
                     return 'fields of %r are not the keys of %s in template order' % (string, ty)
                 if '/'.join(val for _, val in fields) != string:
                     return 'string %r is not the canonical rendering of its fields' % string
+            return None
+        if case.op == 'seq' and case.stream == 'after_mutation':
+            orig = case.meta['orig']
+            first = impl[0]
+            if first[0] != 'ok' or first[1][0] != orig or first[1][1] != orig or first[1][2] != '1':
+                return 'after item assignment on the dictionary returned by .fields the Sid %r reads %r' % (orig, first)
+            for (op, a), r in zip(case.args[1:], impl[1:]):
+                if op == 'sid' and a[0] == ['s', orig[0]]:
+                    if r[0] == 'ok' and r[1][0] == orig[0] and r[1][1] and '/'.join(x for _, x in r[1][2]) != orig[0]:
+                        return 'after a caller changed the dictionary returned by .fields, Sid(%r) has fields %r' % (orig[0], r[1][2])
+                    continue       # (the plain string may have another natural type than the uri)
+                if op == 'eval_repr' and any(ch in orig[0] for ch in "'\\\n\r"):
+                    continue
+                if r != ['ok', orig]:
+                    return 'after a caller changed the dictionary returned by .fields, %s(%r) gives %r, expected %r' % (op, a, r, orig)
             return None
         if case.op == 'seq':
             m = case.meta
